@@ -76,10 +76,15 @@ def check_blocksize(cmd):
                 a["t_length"] = 1
             a["fetures"] &= 0xFF
             a["count"] &= 0xFF
-            a.pop("data", None)
+            had_data = a.pop("data", None) is not None or (a["lba"] & 1)
             bad = dict(a)
             bad.pop("blocksize", None) if path == "facade" else bad.__setitem__("blocksize", 0)
             good = dict(a, blocksize=1)
+            if had_data:
+                # the refusal does not depend on whether the caller also brought a buffer along
+                bad["data"] = bytearray(512)
+                tl_ = {1: a["fetures"], 2: a["count"], 3: a.get("extra_tl") or 0}[a["t_length"]]
+                good["data"] = bytearray(tl_) if tl_ else None
         else:
             if cmd.name == "writesame16":
                 a["ndob"] = 0
